@@ -11,9 +11,16 @@
   `fetchScope`) are in Phil/Proofs/FetchLemmas.lean.  All statements hold for every master, every
   list of sources, both modes (`diff`) and every fuel.
 
-  Finding recorded here (D9): for a master with a `.multiple` object that has a further master
-  occurrence inside a `.multiple` scope, `fetch` with no sources at all raises a `TypeError`
-  (`nested_multiple_further_occurrence_strays`, checked by kernel evaluation).
+  Former finding D9 (fixed in the library, the model follows): for a master with a `.multiple` object
+  that has a further master occurrence (or a disabled example instance) inside a `.multiple` scope,
+  `fetch` raised a `TypeError`, because the key of the master block was rendered from the raw
+  extraction of the block.  The key is now rendered from the block's own fetch (`masterKeyOf`);
+  `nested_multiple_further_occurrence_fetches`, `nested_further_with_source_fetches`,
+  `nested_disabled_instance_fetches` (kernel evaluation) show the fetches that used to fail.
+  Second part of the repair: the default instance a mandatory (`.optional=False`) `.multiple` scope
+  contributes is the scope's own fetch (`defaultInstOf`), not its raw copy — otherwise the failure
+  persisted one level up (`nested_mandatory_multiple_fetches`, `…_disabled`, `…_with_source_fetches`,
+  `mandatory_multiple_default_instance_is_fetched`).
 -/
 import Phil.Proofs.FetchLemmas
 set_option linter.unusedVariables false
@@ -162,20 +169,154 @@ example : (stripDisabled exSource).flatMap Obj.children ≠ exSource.flatMap Obj
   revert this
   decide +kernel
 
-/-! ### finding D9 (unchanged tree) -/
+/-! ### former finding D9: `.multiple` objects with further occurrences inside a `.multiple` scope -/
 
-/-- **Witness.**  Master `s .multiple=True { d = 1 .multiple=True .type=int ; d = 2 }`, no sources:
-    `fetch` does not return a tree but raises `TypeError` (the raw master `extract` inside
-    `extract_format` meets the further occurrence of `d`, which lacks `.multiple`). -/
-theorem nested_multiple_further_occurrence_strays :
-    fetchRoot env12 false w2Master [] = .error (.stray "TypeError" "value_as_str") :=
-  Phil.nested_multiple_further_occurrence_strays
+/-- **Witness (D9 repaired).**  Master `s .multiple=True { d = 1 .multiple=True .type=int ; d = 2 }`,
+    no sources: `fetch` used to raise `TypeError` (the raw master `extract` inside `extract_format` met
+    the further occurrence of `d`, which lacks `.multiple`, and replaced the list by a scalar).  Now
+    the fetch returns the template copy of `s` (template mark 1: no instance survives) with both
+    occurrences of `d`.  The observable form (`obsFetch`) lists dotted path, template mark, word
+    values. -/
+theorem nested_multiple_further_occurrence_fetches :
+    obsFetch env12 false w2Master [] =
+      some [(['s'], 1, []), (['s', '.', 'd'], 0, [['1']]), (['s', '.', 'd'], 0, [['2']])] :=
+  Phil.nested_multiple_further_occurrence_fetches
 
 /-- the same on the parser's output for the text of that master -/
-theorem nested_multiple_further_occurrence_strays_text :
+theorem nested_multiple_further_occurrence_fetches_text :
+    obsFetchText env12 false w2MasterText [] =
+      some [(['s'], 1, []), (['s', '.', 'd'], 0, [['1']]), (['s', '.', 'd'], 0, [['2']])] :=
+  Phil.nested_multiple_further_occurrence_fetches_text
+
+/-- an environment that knows the integers 1, 2, 3 -/
+def env123 : Envs :=
+  { eval := fun s => match s with
+      | ['1'] => some (.num (.int 1)) | ['2'] => some (.num (.int 2)) | ['3'] => some (.num (.int 3))
+      | _ => none,
+    fmt := fun n => match n with
+      | .int 1 => some ['1'] | .int 2 => some ['2'] | .int 3 => some ['3'] | _ => none }
+
+/-- `t .multiple=True { f = 1 .multiple=True .type=int ; f = 2 ; g = 1 }` -/
+def w3MasterText : String :=
+  "t\n.multiple=True\n{\n  f = 1\n  .multiple=True\n  .type=int\n  f = 2\n  g = 1\n}\n"
+
+/-- **Witness (D9 repaired), with a source.**  Master `w3MasterText`, source `t { f = 3 }`: the
+    fetch used to raise `TypeError`; now the result is the template copy of `t` (mark -1: an instance
+    follows) and one instance of `t` in which the list `f` is its template (the first occurrence,
+    mark -1), the master's further occurrence `2` and the source's `3`, followed by `g`. -/
+theorem nested_further_with_source_fetches :
+    obsFetchText env123 false w3MasterText ["t { f = 3 }\n"] =
+      some [(['t'], -1, []),
+            (['t', '.', 'f'], 0, [['1']]), (['t', '.', 'f'], 0, [['2']]), (['t', '.', 'g'], 0, [['1']]),
+            (['t'], 0, []),
+            (['t', '.', 'f'], -1, [['1']]), (['t', '.', 'f'], 0, [['2']]), (['t', '.', 'f'], 0, [['3']]),
+            (['t', '.', 'g'], 0, [['1']])] := by
+  decide +kernel
+
+/-- without sources only the template copy of `t` remains (mark 1) -/
+theorem nested_further_bare_fetches :
+    obsFetchText env123 false w3MasterText [] =
+      some [(['t'], 1, []),
+            (['t', '.', 'f'], 0, [['1']]), (['t', '.', 'f'], 0, [['2']]), (['t', '.', 'g'], 0, [['1']])] := by
+  decide +kernel
+
+/-- `opts .multiple=True { g = 1 .multiple=True ; !g = None }`: a disabled example instance -/
+def w4MasterText : String :=
+  "opts\n.multiple=True\n{\n  g = 1\n  .multiple=True\n  !g = None\n}\n"
+
+/-- **Witness (D9 repaired), disabled example instance.**  The bare fetch of `w4MasterText` used to
+    raise `TypeError` (the disabled `!g = None`, not marked `.multiple`, reset the list `g` to `None`
+    in the raw extraction).  Now it returns the template copy of `opts` (the disabled occurrence is
+    carried along inside the copy). -/
+theorem nested_disabled_instance_fetches :
+    obsFetchText envNone false w4MasterText [] =
+      some [(['o', 'p', 't', 's'], 1, []),
+            (['o', 'p', 't', 's', '.', 'g'], 0, [['1']]),
+            (['o', 'p', 't', 's', '.', '!', 'g'], 0, [['N', 'o', 'n', 'e']])] := by
+  decide +kernel
+
+/-- with the source `opts { g = 5 }`: template copy (mark -1) and one instance holding the list
+    template of `g` (mark -1) and the source's `5` -/
+theorem nested_disabled_instance_with_source_fetches :
+    obsFetchText envNone false w4MasterText ["opts { g = 5 }\n"] =
+      some [(['o', 'p', 't', 's'], -1, []),
+            (['o', 'p', 't', 's', '.', 'g'], 0, [['1']]),
+            (['o', 'p', 't', 's', '.', '!', 'g'], 0, [['N', 'o', 'n', 'e']]),
+            (['o', 'p', 't', 's'], 0, []),
+            (['o', 'p', 't', 's', '.', 'g'], -1, [['1']]),
+            (['o', 'p', 't', 's', '.', 'g'], 0, [['5']])] := by
+  decide +kernel
+
+/-- the raw extraction itself still fails on these blocks — `extract_format()` of the unfetched master
+    scope is what the library computed before; the merge no longer passes through it -/
+example :
     (match parseObjs w2MasterText.toList with
-     | .ok m => errOf (fetchRoot env12 false m [])
-     | .error _ => none) = some (.stray "TypeError" "value_as_str") :=
-  Phil.nested_multiple_further_occurrence_strays_text
+     | .ok [s] => errOf (extractFormatStr env12 64 s s)
+     | _ => none) = some (.stray "TypeError" "value_as_str") := by
+  decide +kernel
+
+/-! ### D9, second part: a mandatory `.multiple` scope inside a `.multiple` scope -/
+
+/-- `u .multiple=True { grp .multiple=True .optional=False { f = 1 .multiple=True .type=int ; f = 2 } }` -/
+def w5MasterText : String :=
+  "u\n.multiple=True\n{\n grp\n .multiple=True\n .optional=False\n {\n  f = 1\n  .multiple=True\n  .type=int\n  f = 2\n }\n}\n"
+
+/-- the same with a disabled example instance `!f = None` (and no `.type`) in place of `f = 2` -/
+def w6MasterText : String :=
+  "u\n.multiple=True\n{\n grp\n .multiple=True\n .optional=False\n {\n  f = 1\n  .multiple=True\n  !f = None\n }\n}\n"
+
+/-- `grp .multiple=True .optional=False { f = 1 .multiple=True .type=int ; f = 2 }` at the top -/
+def w7MasterText : String :=
+  "grp\n.multiple=True\n.optional=False\n{\n  f = 1\n  .multiple=True\n  .type=int\n  f = 2\n}\n"
+
+/-- **Witness (D9 repaired, second part).**  With only the first part of the repair the bare fetch of
+    `w5MasterText` still raised `TypeError`: the own fetch of `u` kept the raw master copy of the
+    mandatory `grp` as live content (template mark 0), so rendering the key of `u` extracted `grp`'s
+    raw block.  The default instance of a mandatory `.multiple` scope is now the scope's own fetch
+    (`defaultInstOf`); the bare fetch succeeds with the template copy of `u`. -/
+theorem nested_mandatory_multiple_fetches :
+    obsFetchText env12 false w5MasterText [] =
+      some [(['u'], 1, []), (['u', '.', 'g', 'r', 'p'], 0, []),
+            (['u', '.', 'g', 'r', 'p', '.', 'f'], 0, [['1']]), (['u', '.', 'g', 'r', 'p', '.', 'f'], 0, [['2']])] := by
+  decide +kernel
+
+/-- the variant with the disabled example instance -/
+theorem nested_mandatory_multiple_fetches_disabled :
+    obsFetchText envNone false w6MasterText [] =
+      some [(['u'], 1, []), (['u', '.', 'g', 'r', 'p'], 0, []),
+            (['u', '.', 'g', 'r', 'p', '.', 'f'], 0, [['1']]),
+            (['u', '.', 'g', 'r', 'p', '.', '!', 'f'], 0, [['N', 'o', 'n', 'e']])] := by
+  decide +kernel
+
+/-- with the source `u { grp { f = 3 } }`: the template copy of `u` (mark -1), then one instance of
+    `u` holding the default instance of `grp` (its own fetch: list template of `f`, mark -1, and the
+    further occurrence `2`) and the instance of `grp` from the source (`2` and `3`) -/
+theorem nested_mandatory_multiple_with_source_fetches :
+    obsFetchText env123 false w5MasterText ["u { grp { f = 3 } }\n"] =
+      some [(['u'], -1, []), (['u', '.', 'g', 'r', 'p'], 0, []),
+            (['u', '.', 'g', 'r', 'p', '.', 'f'], 0, [['1']]), (['u', '.', 'g', 'r', 'p', '.', 'f'], 0, [['2']]),
+            (['u'], 0, []),
+            (['u', '.', 'g', 'r', 'p'], 0, []),
+            (['u', '.', 'g', 'r', 'p', '.', 'f'], -1, [['1']]), (['u', '.', 'g', 'r', 'p', '.', 'f'], 0, [['2']]),
+            (['u', '.', 'g', 'r', 'p'], 0, []),
+            (['u', '.', 'g', 'r', 'p', '.', 'f'], -1, [['1']]), (['u', '.', 'g', 'r', 'p', '.', 'f'], 0, [['2']]),
+            (['u', '.', 'g', 'r', 'p', '.', 'f'], 0, [['3']])] := by
+  decide +kernel
+
+/-- the default instance of a mandatory `.multiple` scope at the top level is its own fetch, not the
+    raw copy: `f` appears as list template (mark -1) plus the further occurrence -/
+theorem mandatory_multiple_default_instance_is_fetched :
+    obsFetchText env123 false w7MasterText [] =
+      some [(['g', 'r', 'p'], 0, []),
+            (['g', 'r', 'p', '.', 'f'], -1, [['1']]), (['g', 'r', 'p', '.', 'f'], 0, [['2']])] := by
+  decide +kernel
+
+/-- without `.optional=False` on `grp` the same master fetches as well -/
+example :
+    obsFetchText env12 false
+      "u\n.multiple=True\n{\n grp\n .multiple=True\n {\n  f = 1\n  .multiple=True\n  .type=int\n  f = 2\n }\n}\n" [] =
+      some [(['u'], 1, []), (['u', '.', 'g', 'r', 'p'], 0, []),
+            (['u', '.', 'g', 'r', 'p', '.', 'f'], 0, [['1']]), (['u', '.', 'g', 'r', 'p', '.', 'f'], 0, [['2']])] := by
+  decide +kernel
 
 end Phil.C04
